@@ -47,11 +47,21 @@ class Gen:
 
     def l3(self, v6):
         proto, body = self.l4(v6)
+        r = self.r
+        # the length the IP header announces: often not what the sampler took (frames padded to the Ethernet minimum, headers
+        # cut by the snap length, exporters that zero it) - the sampled octets are what is decoded, whatever it says
+        hl = 40 if v6 else 20
+        announced = r.choice([None, None, 0, 19, 20, 21, 24, 28, 36, 40, 48, hl + len(body), hl + len(body) - 2, hl + len(body) - 9, hl + len(body) + 6, 1500, 65535])
         if v6:
-            return self.octets(6) + [proto] + self.octets(1) + self.octets(32) + body
+            h = self.octets(6) + [proto] + self.octets(1) + self.octets(32)
+            if announced is not None:
+                h[4:6] = u16(max(0, announced - 40) if r.random() < 0.7 else announced)
+            return h + body
         h = self.octets(20)
         h[0] = 0x45                                              # IHL 5 (domain)
         h[9] = proto
+        if announced is not None:
+            h[2:4] = u16(max(0, announced))
         return h + body
 
     def packet(self):
